@@ -26,13 +26,13 @@ def maxLen : Insn → Nat
   | .invokeinterface _ _ => 5
   | .newarray _ => 2
   | .multianewarray _ _ => 4
+  | .invokedynamic _ => 5
 
 def maxSize (is : List Insn) : Nat := (is.map maxLen).sum
 
-/-- `high - low + 1` does not overflow `i32`; an `invokeinterface` descriptor has at most 254 argument slots -/
+/-- `high - low + 1` does not overflow `i32` -/
 def rangeOk : Insn → Bool
   | .tableswitch _ lo hi _ => decide (hi - lo < 2147483647)
-  | .invokeinterface _ desc => (match argsSize desc with | .error .panic => false | _ => true)
   | _ => true
 
 /-- the domain on which every failure of the code array is a clean error -/
@@ -79,6 +79,7 @@ theorem encInsn_len {isWide : Bool} {lbl : Nat → Option Nat} {p k : Nat} {i : 
     · cases h
     · cases h; simp [maxLen, u16b]
   | newarray t => simp only [encInsn] at h; cases h; simp [maxLen]
+  | invokedynamic idx => simp only [encInsn] at h; cases h; simp [maxLen, u16b]
   | multianewarray idx d => simp only [encInsn] at h; cases h; simp [maxLen, u16b]
   | ifc c t =>
     simp only [encInsn, encIf] at h
@@ -127,6 +128,40 @@ theorem encInsn_len {isWide : Bool} {lbl : Nat → Option Nat} {p k : Nat} {i : 
       have := padLen_le p
       simp [swLabel_len, swPairs_len, i32b, u32b]; omega
 
+theorem argsLoop_no_panic : ∀ (fuel : Nat) (cs : List Nat) (size : Nat), argsLoop fuel cs size ≠ .error .panic := by
+  intro fuel
+  induction fuel with
+  | zero => intro cs size; simp [argsLoop]
+  | succ fuel ih =>
+    intro cs size
+    cases cs with
+    | nil => simp [argsLoop]
+    | cons c rest =>
+      simp only [argsLoop]
+      split
+      · simp
+      · split
+        · split
+          · simp
+          · exact ih _ _
+        · split
+          · simp
+          · split
+            · split
+              · simp
+              · split
+                · simp
+                · exact ih _ _
+            · split
+              · simp
+              · exact ih _ _
+
+theorem argsSize_no_panic (desc : JStr) : argsSize desc ≠ .error .panic := by
+  unfold argsSize
+  split
+  · exact argsLoop_no_panic _ _ _
+  · simp
+
 theorem encInsn_no_panic {isWide : Bool} {lbl : Nat → Option Nat} {p k : Nat} {i : Insn}
     (hp : p + maxLen i ≤ 65533 + 5) (hr : rangeOk i = true) : encInsn isWide lbl p k i ≠ .error .panic := by
   cases i with
@@ -163,13 +198,12 @@ theorem encInsn_no_panic {isWide : Bool} {lbl : Nat → Option Nat} {p k : Nat} 
     · split <;> simp
     · split <;> simp
   | invokeinterface idx desc =>
-    simp only [rangeOk] at hr
     simp only [encInsn]
     cases ha : argsSize desc with
     | error e =>
       cases e with
       | err => simp
-      | panic => simp [ha] at hr
+      | panic => exact absurd ha (argsSize_no_panic desc)
     | ok c => simp
   | _ => simp [encInsn]
 
